@@ -133,14 +133,10 @@ def apply_contract(ctx, cs, fn, args, kwargs):
                 cur = ctx.getattr_(cur, p)
             obj = cur
         val = shape.make(ctx, ctx.fresh_name("%s@%s" % (path, c.short)))
-        if isinstance(obj, SObj):
-            if attr in obj.slots or ctx.class_lookup(obj.cls, attr).__class__.__name__ == "member_descriptor":
-                obj.slots[attr] = val
-            else:
-                obj.idict[attr] = val
-        else:
-            ctx.setattr_(obj, attr, val)
-    if isinstance(target, type) and c.returns is None:
+        set_field(ctx, obj, attr, val)
+    for path in c.open_dicts:
+        open_dict_of(ctx, ns, path)
+    if isinstance(target, type) and c.returns is None and c.effect is None:
         raise Unsupported("constructor contract needs a returns shape")
     result = None
     if c.effect is not None:
@@ -183,6 +179,34 @@ def pure_result(ctx, c, ns):
     return {"str": SStr, "int": SInt}.get(c.pure, lambda t: SBytes(term=t))(r)
 
 
+def set_field(ctx, obj, attr, val):
+    """direct store into an object's slot / instance dict (no property code)"""
+    from .seqs import SymDict
+    if isinstance(obj, SObj):
+        if attr in obj.slots or ctx.class_lookup(obj.cls, attr).__class__.__name__ == "member_descriptor":
+            was = obj.frozen
+            obj.slots[attr] = val
+        elif isinstance(obj.idict, SymDict):
+            obj.idict.set(ctx, attr, val)
+        else:
+            obj.idict[attr] = val
+    else:
+        ctx.setattr_(obj, attr, val)
+
+
+def open_dict_of(ctx, ns, path, excluded=()):
+    """havoc the named-attribute part of an object's instance dict: keep the entries whose keys
+    start with '_' (fields), forget the others, allow unknown further entries"""
+    from .seqs import SymDict
+    parts = path.split(".")
+    cur = ns[parts[0]]
+    for p in parts[1:]:
+        cur = ctx.getattr_(cur, p)
+    known = cur.idict.known if isinstance(cur.idict, SymDict) else cur.idict
+    keep = {k: v for k, v in known.items() if isinstance(k, str) and k.startswith("_")}
+    cur.idict = SymDict(keep, rest=True, excluded=set(keep) | set(excluded))
+
+
 InterpMixin.apply_contract = apply_contract
 
 
@@ -208,14 +232,11 @@ def exec_loop_with_invariant(ctx, s, fr, spec, kind, iterable=None):
             for p in parts[1:-1]:
                 cur = ctx.getattr_(cur, p)
             val = shape.make(ctx, ctx.fresh_name("loop." + path))
-            if isinstance(cur, SObj) and ctx.class_lookup(cur.cls, parts[-1]).__class__.__name__ == "member_descriptor":
-                cur.slots[parts[-1]] = val
-            elif isinstance(cur, SObj):
-                cur.idict[parts[-1]] = val
-            else:
-                ctx.setattr_(cur, parts[-1], val)
+            set_field(ctx, cur, parts[-1], val)
         for name, shape in spec.ghost.items():
             ctx.ghost[name] = shape.make(ctx, ctx.fresh_name("ghost." + name))
+        for path in spec.open_dicts:
+            open_dict_of(ctx, fr.locals, path)
 
     if kind == "while":
         ctx.prove(base + "/inv-entry", ctx.as_goal(ctx.call_spec(spec.inv, ns_now())))
@@ -264,6 +285,14 @@ def exec_loop_with_invariant(ctx, s, fr, spec, kind, iterable=None):
         ctx.exec_block(s.orelse, fr)
         return
     # ---- for x in <symbolic sequence>
+    from .seqs import SEnumSeq
+    enum_start = None
+    if isinstance(iterable, SEnumSeq):
+        enum_start = iterable.start
+        iterable = iterable.seq
+    if isinstance(iterable, (list, tuple)) and ctx.default_elem is not None:
+        from .seqs import to_sseq
+        iterable = to_sseq(ctx, list(iterable), ctx.default_elem)
     if not isinstance(iterable, SSeq):
         raise Unsupported("loop invariant on a for loop over a non-symbolic iterable")
     seq = iterable
@@ -281,9 +310,25 @@ def exec_loop_with_invariant(ctx, s, fr, spec, kind, iterable=None):
         done = SSeq(d, elem, ("var",))
         ctx.assume(ctx.as_goal(ctx.call_spec(spec.inv, ns_now({dn: done}))))
         xo = elem.materialize(ctx, x)
-        ctx.assign(s.target, xo, fr)
+        # let folds over the iterated sequence unfold along done ++ [x] ++ rest
+        rest = SSeq(r, elem, ("var",))
+        unit = SSeq(z3.Unit(x), elem, ("snoc", SSeq(z3.Empty(RSEQ), elem, ("empty",)), xo))
+        dx = SSeq(z3.Concat(d, z3.Unit(x)), elem, ("snoc", done, xo))
+        whole = SSeq(z3.Concat(d, z3.Unit(x), r), elem, ("concat", dx, rest))
+        for sq in (seq, whole):
+            for key in list(ctx.fold_done):
+                if key[1] == sq.term.get_id():
+                    ctx.fold_done.discard(key)
+        seq.struct = ("alias", whole)
+        for v in list(fr.locals.values()) + list(ctx.ghost.values()):
+            if isinstance(v, SSeq) and v is not seq and v.term.get_id() == seq.term.get_id():
+                v.struct = ("alias", whole)
+        if enum_start is not None:
+            ctx.assign(s.target, (SInt(z3.Length(d) + enum_start), xo), fr)
+        else:
+            ctx.assign(s.target, xo, fr)
         if spec.hint is not None:
-            ctx.call_spec(spec.hint, ns_now({dn: done}))
+            ctx.call_spec(spec.hint, ns_now({dn: done, "rest": rest}))
         try:
             ctx.exec_block(s.body, fr)
         except E._Break:
@@ -373,6 +418,8 @@ def run_contract(eng, c, clause_filter=None):
         ctx.entry_ns = dict(ns)
         for g in [p for p in c.args if p.startswith("_")]:
             ctx.ghost[g] = ns[g]
+        if c.setup_spec is not None:
+            ctx.call_spec(c.setup_spec, ns)
         if c.requires is not None:
             ctx.assume(ctx.as_goal(ctx.call_spec(c.requires, ns)))
         for fid, region in c.regions.items():
